@@ -3,6 +3,7 @@ package comp
 import (
 	"context"
 	"encoding/json"
+	"fmt"
 	"os"
 	"path/filepath"
 	"sort"
@@ -107,24 +108,32 @@ func TestAuth(t *testing.T) {
 		ctx := context.Background()
 		var err error
 		srcClosed := 0
-		switch c.Op {
-		case "Get":
-			_, err = ba.Get(ctx, u.Digest("p", c.Names[0])).ToByteSlice(1 << 20)
-		case "Comp":
-			d := u.Digest("p", c.Names[0])
-			_, err = ba.GetFromComposite(ctx, d, d, identitySlicer{}).ToByteSlice(1 << 20)
-		case "Put":
-			d := u.Digest("q", c.Names[0])
-			src := &countingReader{data: u.Data("q")}
-			err = ba.Put(ctx, d, buffer.NewCASBufferFromReader(d, src, buffer.UserProvided))
-			srcClosed = src.closed
-		case "Fm":
-			sb := digest.NewSetBuilder(0)
-			for i, inst := range c.Names {
-				sb.Add(u.Digest([]string{"p", "q"}[i%2], inst))
+		panicked := ""
+		func() {
+			defer func() {
+				if r := recover(); r != nil {
+					panicked = fmt.Sprint(r)
+				}
+			}()
+			switch c.Op {
+			case "Get":
+				_, err = ba.Get(ctx, u.Digest("p", c.Names[0])).ToByteSlice(1 << 20)
+			case "Comp":
+				d := u.Digest("p", c.Names[0])
+				_, err = ba.GetFromComposite(ctx, d, d, identitySlicer{}).ToByteSlice(1 << 20)
+			case "Put":
+				d := u.Digest("q", c.Names[0])
+				src := &countingReader{data: u.Data("q")}
+				err = ba.Put(ctx, d, buffer.NewCASBufferFromReader(d, src, buffer.UserProvided))
+				srcClosed = src.closed
+			case "Fm":
+				sb := digest.NewSetBuilder(0)
+				for i, inst := range c.Names {
+					sb.Add(u.Digest([]string{"p", "q"}[i%2], inst))
+				}
+				_, err = ba.FindMissing(ctx, sb.Build())
 			}
-			_, err = ba.FindMissing(ctx, sb.Build())
-		}
+		}()
 		names := c.Names
 		if names == nil {
 			names = []string{}
@@ -133,6 +142,9 @@ func TestAuth(t *testing.T) {
 			"backendCalls": len(log.Snapshot()), "srcClosed": srcClosed, "res": "OK"}
 		if err != nil {
 			o["res"], o["msg"] = "ERR", err.Error()
+		}
+		if panicked != "" {
+			o["res"], o["msg"] = "PANIC", panicked
 		}
 		w.Emit(o)
 		n++
